@@ -19,10 +19,11 @@ G1 = Schema('G1', [Opt('int', 'i', '', 5), Opt('int', 'l', 'L', [b'1']),
                    Opt('sec', 's', '', sub=[Opt('int', 'x', '', 1), Opt('sec', 't', '', sub=[Opt('int', 'y', '', 2)])]),
                    Opt('sec', 'm', 'M', sub=[Opt('int', 'x', '', 1)]), Opt('sec', 'mt', 'MT', sub=[Opt('int', 'x', '', 1)]),
                    Opt('func', 'fn', '', None, 'u'), Opt('sec', 'kv', 'K', sub=[Opt('str', 'k0', '', b'd')]),
-                   Opt('sec', 'kvm', 'KMT', sub=[Opt('str', 'k0', '', b'd')])])
+                   Opt('sec', 'kvm', 'KMT', sub=[Opt('str', 'k0', '', b'd')]), Opt('int', 'd', 'D', 5), Opt('int', 'dx', 'DX', 5)])
 BASES = [b'', b'i = 7', b'i = 7 l += {2}', b's { x = 3 }', b's { x = 3 t { y = 4 } }', b'm { x = 5 } m { }', b'mt a { x = 2 } i = 3',
          b'i = 7 l += {2} s { x = 3 t { y = 4 } } m { x = 5 } m { } fn(a) mt b { }', b'l = {3, 4} fn() s { t { } }',
-         b'kv { k0 = z } i = 7', b'kvm a { } kvm b { k0 = y } kv { }']
+         b'kv { k0 = z } i = 7', b'kvm a { } kvm b { k0 = y } kv { }',
+         b'd = 1 i = 2', b'dx = 4 i = 2 d = 3']      # deprecated options: their notice is the base text's own diagnostic, once per use
 IG = CFGF['IGNORE_UNKNOWN']
 
 
@@ -105,11 +106,11 @@ def run(st, drv, items, annotated=False):
             mb = reftext.meaning(G1, 0, base)
             exp_dump = 'dump ' + dump_sec(mb.store, 0)
             cases.append(Case(['init A G1 %d' % IG, 'cb_quiet 1', 'parse_buf A ' + enc(text), 'dump A 0']))
-        metas.append(('with', base, text, exp_dump))
+        metas.append(('with', base, text, exp_dump, len(reftext.meaning(G1, 0, base).res.deprecated)))
         cases.append(Case(['init A G1 0', 'cb_quiet 1', 'parse_buf A ' + enc(text)]))
-        metas.append(('without', base, text, None))
+        metas.append(('without', base, text, None, 0))
     results = drv.run(cases)
-    for c, r, (mode, base, text, exp_dump) in zip(cases, results, metas):
+    for c, r, (mode, base, text, exp_dump, ndep) in zip(cases, results, metas):
         st.evaluations += 1
         st.transitions += 1
         st.validated += 1
@@ -126,8 +127,8 @@ def run(st, drv, items, annotated=False):
                 st.violation('unknown-item-not-skipped', script, 'r parse_buf 0', (rc or 'none') + ' ' + ' '.join(diags[:2]))
             elif dump != exp_dump:
                 st.violation('unknown-item-changed-values', script, exp_dump, dump or 'none')
-            elif diags:
-                st.violation('diagnostic-for-skipped-item', script, 'no diagnostic', diags[0])
+            elif len(diags) != ndep:
+                st.violation('diagnostic-for-skipped-item', script, 'no diagnostic besides the %d deprecation notice(s) of the base text' % ndep, ' | '.join(diags[:4]))
             st.nontriv(text)
         else:
             # without the flag an undeclared item is an error - except where the language makes it a declaration of its
